@@ -55,6 +55,22 @@ def permute(rng, doc: dict) -> dict:
                 part["properties"] = shuffled(part["properties"])
     d["components"]["schemas"] = shuffled(comps)
     d["paths"] = shuffled(d["paths"])
+
+    # the member order of ANY JSON object is rendering, not meaning: path items (operations vs. the path-level
+    # 'parameters' key), operation objects, parameter and schema objects.  Kept as written: the key order of 'responses'
+    # and 'content' maps (which entry counts as the first declared one is looked at by other checks) - their values are
+    # still walked.  Lists are ordered by meaning and never touched.
+    def walk(x, keep_order=False):
+        if isinstance(x, dict):
+            ks = list(x)
+            if not keep_order:
+                rng.shuffle(ks)
+            return {k: walk(x[k], keep_order=k in ("responses", "content")) for k in ks}
+        if isinstance(x, list):
+            return [walk(i) for i in x]
+        return x
+
+    d["paths"] = {p: walk(item) for p, item in d["paths"].items()}
     return d
 
 
